@@ -120,6 +120,7 @@ type Frame struct {
 	parent  *Frame
 	envCells map[string]interface{} // closure verified on its own: variables of the enclosing function captured by sibling closures
 	envTypes map[string]types.Type
+	sibClos  map[interface{}]*Closure // ... and the sibling closures reachable through captured function variables
 	defers  []*ssa.Defer
 	namePfx string
 	edgeCond map[edgeKey]string
@@ -149,6 +150,7 @@ type Gen struct {
 	specBusy map[string]bool
 	callSeq  map[string]int
 	topFrame *Frame
+	loopBack map[string][]string // per loop under contract: reachability of its back edges (vacuity cover)
 	inputs   []InputVar
 	opaque   map[string]bool
 	boxes    map[string]bool
@@ -202,6 +204,7 @@ func (g *Gen) reset() {
 	g.specSrc = map[string]*types.Func{}
 	g.frames = nil
 	g.uniGrew = false
+	g.loopBack = nil
 }
 
 func (g *Gen) note(s string) { g.notes[s] = true }
@@ -983,6 +986,17 @@ func (g *Gen) loopHead(fr *Frame, st *State, li *loopInfo) {
 		g.assume(st, sx(">=", nt, st.top))
 		st.top = nt
 	}
+	if eff.unknownCall {
+		// unknown call target: every ghost variable and every local captured by a closure may change
+		for k := range st.cells {
+			if ks, ok := k.(string); ok && (strings.HasPrefix(ks, "ghost:") || strings.HasPrefix(ks, "free:")) {
+				eff.cells[k] = true
+			}
+		}
+		for a := range g.capturedAllocs(fr.fn) {
+			eff.cells[a] = true
+		}
+	}
 	for k := range eff.cells {
 		v, ok := st.cells[k]
 		if !ok || v.Clo != nil || v.T == "" {
@@ -1036,6 +1050,30 @@ func (g *Gen) loopHead(fr *Frame, st *State, li *loopInfo) {
 	}
 }
 
+// capturedAllocs: the locals of fn (and of its closures) that some closure captures by reference.
+func (g *Gen) capturedAllocs(fn *ssa.Function) map[*ssa.Alloc]bool {
+	res := map[*ssa.Alloc]bool{}
+	var walk func(f *ssa.Function)
+	walk = func(f *ssa.Function) {
+		for _, b := range f.Blocks {
+			for _, in := range b.Instrs {
+				if mc, ok := in.(*ssa.MakeClosure); ok {
+					for _, bd := range mc.Bindings {
+						if a, ok := bd.(*ssa.Alloc); ok {
+							res[a] = true
+						}
+					}
+				}
+			}
+		}
+		for _, af := range f.AnonFuncs {
+			walk(af)
+		}
+	}
+	walk(fn)
+	return res
+}
+
 func (g *Gen) backEdge(fr *Frame, st *State, li *loopInfo) {
 	lc := g.loopContract(fr, li)
 	if lc == nil {
@@ -1051,6 +1089,14 @@ func (g *Gen) backEdge(fr *Frame, st *State, li *loopInfo) {
 		env := g.envFor(fr, st)
 		goal := env.evalBool(inv.Expr)
 		g.oblige(st, "inv-preserved", name+"/preserved"+sfx+"/"+inv.Label, goal, inv, nil)
+	}
+	// vacuity: under the invariants some iteration must be able to complete (collected over the back
+	// edges; an invariant that contradicts the loop body otherwise makes everything inside hold)
+	{
+		if g.loopBack == nil {
+			g.loopBack = map[string][]string{}
+		}
+		g.loopBack[name] = append(g.loopBack[name], st.reach)
 	}
 }
 
@@ -1853,6 +1899,9 @@ func (g *Gen) setMayFireIn(fr *Frame, li *loopInfo, s *AnchorSet) bool {
 						return true
 					}
 				}
+			case *ssa.MakeClosure:
+				// a closure created in the loop may be run by whatever it is passed to
+				return true
 			case *ssa.Call:
 				c := x.Common()
 				if c.IsInvoke() {
@@ -1863,7 +1912,7 @@ func (g *Gen) setMayFireIn(fr *Frame, li *loopInfo, s *AnchorSet) bool {
 				}
 				callee := g.staticClosure(fr, c.Value)
 				if callee == nil {
-					continue
+					return true // unknown call target: it may run any closure
 				}
 				nm := callee.Name()
 				if callee.Parent() != nil {
@@ -1872,10 +1921,10 @@ func (g *Gen) setMayFireIn(fr *Frame, li *loopInfo, s *AnchorSet) bool {
 				if (s.Call != "" && nm == s.Call) || (s.AfterCall != "" && nm == s.AfterCall) {
 					return true
 				}
-				// an inlined closure may contain any trigger
+				// an inlined closure or inlined function (which may in turn run a closure it is handed) may contain any trigger
 				con := g.P.contracts[funcKey(callee)]
 				inlined := callee.Parent() != nil && (con == nil || con.Inline || (len(con.Ensures) == 0 && len(con.Requires) == 0 && !con.HasModifies))
-				if inlined {
+				if inlined || (con != nil && con.Inline) {
 					return true
 				}
 			}
